@@ -2,6 +2,7 @@ package jsondb
 
 import (
 	"bufio"
+	"sync"
 	// nolint: gosec
 	"crypto/md5"
 	"encoding/hex"
@@ -44,6 +45,7 @@ const (
 type JSONDB struct {
 	location          string
 	writer            *writer
+	writerLock        sync.Mutex // guards the writer pointer
 	cache             *filecache.Cache[*model.Status]
 	latestStatusToday bool
 }
@@ -88,22 +90,33 @@ func (s *JSONDB) Open(dagFile string, t time.Time, requestID string) error {
 }
 
 func (s *JSONDB) Write(status *model.Status) error {
-	return s.writer.write(status)
+	// A status may arrive after Close (the agent's delayed "running" record
+	// races with the end of a short run): that is an error, not a crash.
+	s.writerLock.Lock()
+	w := s.writer
+	s.writerLock.Unlock()
+	if w == nil {
+		return ErrWriterNotOpen
+	}
+	return w.write(status)
 }
 
 func (s *JSONDB) Close() error {
 	if s.writer == nil {
 		return nil
 	}
+	w := s.writer
 	defer func() {
-		_ = s.writer.close()
+		_ = w.close()
+		s.writerLock.Lock()
 		s.writer = nil
+		s.writerLock.Unlock()
 	}()
-	if err := s.Compact(s.writer.target); err != nil {
+	if err := s.Compact(w.target); err != nil {
 		return err
 	}
-	s.cache.Invalidate(s.writer.target)
-	return s.writer.close()
+	s.cache.Invalidate(w.target)
+	return w.close()
 }
 
 func (s *JSONDB) newWriter(dagFile string, t time.Time, requestID string) (*writer, string, error) {
